@@ -434,3 +434,31 @@ pub fn record(args: &[String]) {
     out.flush().unwrap();
     println!("{}", json!({"module": "cli", "events": events.len()}));
 }
+
+/// `zv flags <out.json>`: the option table of the current build (long and short names, arity),
+/// including global options, for the Python API check (C18)
+pub fn flags(args: &[String]) {
+    let mut cmd = zerv::cli::Cli::command();
+    cmd.build();
+    let mut table = serde_json::Map::new();
+    for name in ["version", "flow", "render", "check"] {
+        let sub = cmd.find_subcommand(name).expect("sub-command");
+        let mut opts = vec![];
+        for a in sub.get_arguments() {
+            if a.is_positional() {
+                continue;
+            }
+            let takes = a.get_action().takes_values();
+            if let Some(l) = a.get_long() {
+                opts.push(json!({"opt": format!("--{l}"), "takes": takes}));
+            }
+            if let Some(c) = a.get_short() {
+                opts.push(json!({"opt": format!("-{c}"), "takes": takes}));
+            }
+        }
+        table.insert(name.to_string(), Value::Array(opts));
+    }
+    let v = Value::Object(table);
+    std::fs::write(&args[0], v.to_string()).unwrap();
+    println!("{v}");
+}
